@@ -1,18 +1,19 @@
 import McpModel.Base.Proto
-import McpModel.Sessions.Model
+import McpModel.Sessions.Replay
+import McpModel.Sessions.Monitor
 /-!
-Driver for E7 (C11).  Two independent parts:
+Driver for E7 (C11): the **string layer** only.
 
-* the **model replay**: every harness operation is translated into the label list the real handler
-  executes for it (request labels, then the internal labels that are enabled at quiescence: timer
-  callbacks whose deadline has passed, `closeDone` of closing sessions without handlers in flight) and
-  the model's full observation (status, `Mcp-Session-Id`, async completions, `h.sessions`,
-  `Server.Sessions()`, handler invocation log) is printed for comparison with the implementation's;
+* the token parser: a record's operation tokens ↦ `Op`, the implementation's observation ↦ `Obs`
+  (total: every field the implementation controls has a `raw` form);
+* the renderer: the model's `Obs` ↦ the canonical observation string that is compared with the
+  implementation's;
+* the clause texts (`Clause.text`, `EndClause.text`) — quoted by known_findings.json, seeded/*/meta.json
+  and the corpus, so they must not change.
 
-* the **property monitor**: the C11 clauses as a decidable predicate on the *implementation's*
-  observations, derived from an abstract session table that does not use the model's state: a session
-  is a name, an owner, the number of POSTs in progress and the instant it last became idle; it dies by
-  an accepted DELETE, a server-side close, a failed initialize, or `timeout` ms of idleness.
+Everything that decides anything is typed: the model replay is `replayOp` (Replay.lean), the property
+monitor is `monStep` / `monEnd` (Monitor.lean; bridged to the model in Bridge.lean, to the property
+text in Sound.lean).
 
 Harness operations (see go/harness/mcp/zz_verif_sessions_test.go):
 `reset <stateful|stateless> <timeout ms> [es|nes]` (`es`: the handler has an `EventStore`, a fault-injecting
@@ -40,549 +41,301 @@ def splitList (s : String) : List String := if s == "-" || s == "" then [] else 
 
 def b2n (b : Bool) : Nat := if b then 1 else 0
 
-def bogus : Nat := 1000000000
+/-- A number in its canonical decimal spelling (so that rendering a parsed token gives the token back). -/
+def canonNat? (s : String) : Option Nat :=
+  match s.toNat? with
+  | some n => if toString n == s then some n else none
+  | none => none
 
-/-- `-` ↦ no id; `s<k>` ↦ model id k-1 when minted, else an id that was never minted; `x<n>` likewise. -/
-def parseRef (next : Nat) (r : String) : Option (Option Nat) :=
-  if r == "-" then some none
-  else if r.startsWith "s" then
-    match (tailStr r 1).toNat? with
-    | some k => if 1 ≤ k ∧ k - 1 < next then some (some (k - 1)) else some (some (bogus + k))
-    | none => none
-  else if r.startsWith "x" then
-    match (tailStr r 1).toNat? with
-    | some n => some (some (2 * bogus + n))
-    | none => none
-  else none
+/-- `<p><canonical number>` -/
+def prefixed? (p : String) (s : String) : Option Nat :=
+  if s.startsWith p then canonNat? (tailStr s p.length) else none
 
-def parseUser (u : String) : Option User :=
-  if u == "anon" || u == "ue" then some none
-  else if u.startsWith "u" then (tailStr u 1).toNat?.map some
-  else none
+/-! ## parser: operations -/
 
-def parseKind (k : String) : Option Kind :=
+def parseRef (r : String) : Option Ref :=
+  if r == "-" then some .absent
+  else match prefixed? "s" r with
+    | some k => some (.s k)
+    | none => (prefixed? "x" r).map .x
+
+def parseUserTok (u : String) : Option UserTok :=
+  if u == "anon" then some .anon
+  else if u == "ue" then some .ue
+  else (prefixed? "u" u).map .u
+
+def parsePKind (k : String) : Option PKind :=
   match k with
   | "init" => some .init
-  | "badinit" => some .badInit
-  | "ping" => some .call
-  | "slow" => some .call
+  | "badinit" => some .badinit
+  | "ping" => some .ping
+  | "slow" => some .slow
   | "notif" => some .notif
   | _ => none
-
-def sname (i : Nat) : String := s!"s{i + 1}"
 
 def parseFaults (f : String) : Faults :=
   { closed := f.contains 'c', connOpen := f.contains 'o', reqOpen := f.contains 'O',
     append := f.contains 'a', after := f.contains 'r' }
 
-def showOwner : User → String
-  | none => "-"
-  | some n => s!"u{n}"
-
-/-! ## model replay -/
-
-inductive PKind where
-  | slow (sid : Option Nat) (slot : Nat)
-  | run (sid : Nat) (slot : Nat)   -- handler still running after its POST was abandoned by the client
-  | del (sid : Nat)
-  | cls (sid : Nat)
-
-structure Pend where
-  tag : String
-  kind : PKind
-
-def doL (s : State) (l : Label) : State :=
-  match step s l with
-  | some (s', _) => s'
-  | none => s
-
-/-- Internal labels enabled at quiescence: expired timers fire, closes without handlers complete. -/
-def settle (s : State) : State :=
-  s.tbl.foldl (fun s e => doL (doL s (.timerFire e.id)) (.closeDone e.id)) s
-
-def isLive (s : State) (i : Nat) : Bool :=
-  match findSess i s.tbl with
-  | some e => !e.removed
-  | none => false
-
-/-- What `Close()` of that session returns: closing the connection reported an error. -/
-def closeErrOf (s : State) (i : Nat) : Bool :=
-  match findSess i s.tbl with
-  | some e => e.closeErr
-  | none => false
-
-def showMap (s : State) : String :=
-  joinOr ((s.tbl.filter (fun e => e.inMap)).map fun e =>
-    s!"{sname e.id}/{showOwner e.owner}/r{e.refs}/t{b2n (e.timer != .nil)}/c{b2n e.closing}")
-
-def showSrv (s : State) : String :=
-  if s.cfg.stateless then joinOr (List.replicate s.eph "e")
-  else joinOr ((s.tbl.filter (fun e => !e.removed)).map fun e => sname e.id)
-
-/-- Pending DELETEs / server closes / refused POSTs whose session has been removed complete now. -/
-def completions (s : State) (pend : List Pend) : List String × List Pend × State :=
-  pend.foldl (fun (acc : List String × List Pend × State) p =>
-    let (done, keep, st) := acc
-    match p.kind with
-    | .del i => if isLive st i then (done, keep ++ [p], st) else (done ++ [s!"{p.tag}={stDeleted}"], keep, st)
-    | .cls i => if isLive st i then (done, keep ++ [p], st)
-                else (done ++ [s!"{p.tag}={if closeErrOf st i then 2 else 1}"], keep, st)
-    | .slow _ _ => (done, keep ++ [p], st)
-    | .run _ _ => (done, keep ++ [p], st)) ([], [], s)
-
-structure MSess where
-  name : String
-  owner : String          -- "-" = not bound to a user
-  status : Nat            -- 0 live, 1 dying (DELETE/close in progress), 2 dead
-  posts : Nat
-  idleSince : Nat
-  running : Nat := 0      -- handlers still running after their POST was abandoned
-deriving Repr
-
-structure DState where
-  st : State := init { stateless := false, timeout := 100, publishChecks := Generated.Sessions.publishChecksClosed }
-  nslow : Nat := 0
-  nasync : Nat := 0
-  released : List Nat := []
-  pend : List Pend := []
-  -- monitor (independent of `st` apart from the configuration)
-  mon : List MSess := []
-  mnow : Nat := 0
-  mpend : List (String × String) := []    -- async tag ↦ session name
-  zombies : List String := []             -- F20: sessions closed during creation that were published anyway
-  mrun : List (Nat × String) := []        -- slot of an abandoned POST whose handler still runs ↦ session name
-  mfaults : String := "-"                 -- the flags of the last `fault` op (the environment's script)
-
-structure MOut where
-  st : State
-  head : String
-  done : List String := []
-  log : List String := []
-  pend : List Pend
-  nslow : Nat
-  nasync : Nat
-  released : List Nat
-
-/-- Replay one harness operation on the model. `none` = unparsable operation. -/
-def modelOp (d : DState) (toks : List String) : Option MOut :=
-  let st := d.st
-  let base : MOut := { st := st, head := "", pend := d.pend, nslow := d.nslow, nasync := d.nasync, released := d.released }
+def parseOp (toks : List String) : Option Op :=
   match toks with
   | ["post", ref, user, kind] => do
-    let sid ← parseRef st.next ref
-    let u ← parseUser user
-    let k ← parseKind kind
-    let slow := kind == "slow"
-    let nslow := if slow then d.nslow + 1 else d.nslow
-    let nasync := if slow then d.nasync else d.nasync + 1
-    let tag := if slow then s!"p{nslow}" else s!"q{nasync}"
-    let base := { base with nslow := nslow, nasync := nasync }
-    -- without a session id on a stateful endpoint: `Connect`, then the publication answers
-    let first : Option (State × Resp) :=
-      if sid.isNone && !st.cfg.stateless then
-        match step st (.postBegin none u k) with
-        | some (st0, .tau) => step st0 (.publish st.next)
-        | r => r      -- `Connect` refused by the event store: answered at once, no session
-      else step st (.postBegin sid u k)
-    match first with
-    | none => none
-    | some (st1, .reject c) => some { base with st := st1, head := s!"{c} -" }
-    | some (st1, .storeRefused c) =>
-      -- the session layer let the POST through, the transport could not open the stream for the
-      -- answer: nothing reaches a handler, the POST ends (for a creating POST: failed initialize)
-      if st.cfg.stateless then some { base with st := doL st1 (.postEnd none false), head := s!"{c} -" }
-      else some { base with st := doL st1 (.postEnd (some (sid.getD st.next)) sid.isNone), head := s!"{c} -" }
-    | some (st1, .forward hdr deliver) =>
-      let hdrS := match hdr with | some i => sname i | none => "-"
-      if st.cfg.stateless then
-        if slow then
-          some { base with st := st1, head := "pending -", log := [s!"e/{user}/tools/call"],
-                           pend := d.pend ++ [⟨tag, .slow none nslow⟩] }
-        else
-          let st2 := doL st1 (.postEnd none false)
-          -- (a notification is handled by the temporary session before the POST is acknowledged)
-          let log := match kind with
-            | "init" => [s!"e/{user}/initialize"]
-            | "ping" => [s!"e/{user}/ping"]
-            | "notif" => [s!"e/{user}/notifications/initialized"]
-            | _ => []
-          some { base with st := st2, head := (if kind == "notif" then "202 -" else "200 -"), log := log }
-      else
-        let i := sid.getD st.next
-        let creator := sid.isNone
-        let wasInit := match findSess i st.tbl with | some e => e.initialized | none => false
-        let nm := sname i
-        if slow && deliver && wasInit then
-          some { base with st := st1, head := "pending -", log := [s!"{nm}/{user}/tools/call"],
-                           pend := d.pend ++ [⟨tag, .slow (some i) nslow⟩] }
-        else
-          let st2 := match k with
-            | .init => if deliver then doL st1 (.handlerDone i true) else st1
-            | .badInit | .call => if deliver then doL st1 (.handlerDone i false) else st1
-            | .notif => st1
-          let st3 := doL st2 (.postEnd (some i) creator)
-          let log := match kind with
-            | "init" => if deliver then [s!"{nm}/{user}/initialize"] else []
-            | "ping" => if deliver then [s!"{nm}/{user}/ping"] else []
-            | "notif" => if deliver && !creator then [s!"{nm}/{user}/notifications/initialized"] else []
-            | _ => []
-          let head := match kind with
-            | "notif" => "202 -"
-            | "init" | "badinit" => s!"200 {hdrS}"
-            | _ => "200 -"
-          some { base with st := st3, head := head, log := log }
-    | some _ => none
+    let r ← parseRef ref
+    let u ← parseUserTok user
+    let k ← parsePKind kind
+    some (.post r u k)
   | ["postx", user, kind] => do
-    let u ← parseUser user
-    let k ← parseKind kind
-    let slow := kind == "slow"
-    let nslow := if slow then d.nslow + 1 else d.nslow
-    let nasync := if slow then d.nasync else d.nasync + 1
-    let base := { base with nslow := nslow, nasync := nasync }
-    if st.cfg.stateless then none
-    else
-      let i := st.next
-      match step st (.postBegin none u k) with
-      | some (st0, .reject c) => some { base with st := st0, head := s!"{c} -" }
-      | some (st0, _) =>
-        let st1 := doL (doL st0 (.serverClose i)) (.closeDone i)
-        match step st1 (.publish i) with
-        | some (st2, .forward hdr _) =>
-          let hdrS := match hdr with | some j => sname j | none => "-"
-          some { base with st := doL st2 (.postEnd (some i) true), head := s!"200 {hdrS}" }
-        | some (st2, .storeRefused c) => some { base with st := doL st2 (.postEnd (some i) true), head := s!"{c} -" }
-        | _ => none
-      | none => none
-  | ["release", ks] => do
-    let k ← ks.toNat?
-    if k = 0 || k > d.nslow || d.released.contains k then some { base with head := "noop -" }
-    else
-      let base := { base with head := "ok -", released := d.released ++ [k] }
-      match d.pend.find? (fun p => match p.kind with | .slow _ s => s == k | .run _ s => s == k | _ => false) with
-      | some p =>
-        let rest := d.pend.filter (fun q => q.tag != p.tag)
-        match p.kind with
-        | .slow (some i) _ =>
-          -- (also after `Close` has begun: the answer of a handler that was admitted before the close
-          -- still passes the connection's write gate — F26 — so the POST is answered and ends)
-          some { base with st := doL (doL st (.handlerDone i false)) (.postEnd (some i) false),
-                           done := [s!"{p.tag}=200"], pend := rest }
-        | .slow none _ => some { base with st := doL st (.postEnd none false), done := [s!"{p.tag}=200"], pend := rest }
-        | .run i _ => some { base with st := doL st (.handlerDone i false), pend := rest }
-        | _ => some base
-      | none => some base
-  | ["abandon", ks] => do
-    let k ← ks.toNat?
-    let tag := s!"p{k}"
-    match d.pend.find? (fun p => p.tag == tag) with
-    | none => some { base with head := "noop -" }
-    | some p =>
-      let rest := d.pend.filter (fun q => q.tag != tag)
-      match p.kind with
-      | .slow (some i) slot =>
-        -- the POST ends (endPOST), the handler stays in flight
-        some { base with st := doL st (.postEnd (some i) false), head := "ok -", done := [s!"{tag}=200"],
-                         pend := rest ++ [⟨s!"r{k}", .run i slot⟩] }
-      | .slow none _ =>
-        -- stateless: the POST now waits in `defer session.Close()` for its handler: nothing observable
-        some { base with head := "ok -" }
-      | _ => some { base with head := "noop -" }
+    let u ← parseUserTok user
+    let k ← parsePKind kind
+    some (.postx u k)
+  | ["release", ks] => ks.toNat?.map .release
+  | ["abandon", ks] => ks.toNat?.map .abandon
   | ["get", ref, user] => do
-    let sid ← parseRef st.next ref
-    let u ← parseUser user
-    let base := { base with nasync := d.nasync + 1 }
-    match step st (.get sid u) with
-    | some (st1, .reject c) => some { base with st := st1, head := s!"{c} -" }
-    | some (st1, .stream) => some { base with st := st1, head := "200 - hang" }
-    | some (st1, .storeRefused c) => some { base with st := st1, head := s!"{c} -" }
-    | _ => none
+    let r ← parseRef ref
+    let u ← parseUserTok user
+    some (.get r u)
   | ["delete", ref, user] => do
-    let sid ← parseRef st.next ref
-    let u ← parseUser user
-    let base := { base with nasync := d.nasync + 1 }
-    match step st (.delete sid u) with
-    | some (st1, .reject c) => some { base with st := st1, head := s!"{c} -" }
-    | some (st1, .closeAccepted) =>
-      let i := sid.getD 0
-      let st2 := settle st1
-      if isLive st2 i then some { base with st := st2, head := "pending -", pend := d.pend ++ [⟨s!"d{d.nasync + 1}", .del i⟩] }
-      else some { base with st := st2, head := s!"{stDeleted} -" }
-    | _ => none
+    let r ← parseRef ref
+    let u ← parseUserTok user
+    some (.delete r u)
   | ["other", ref, user] => do
-    let sid ← parseRef st.next ref
-    let u ← parseUser user
-    let base := { base with nasync := d.nasync + 1 }
-    match step st (.other sid u) with
-    | some (st1, .reject c) => some { base with st := st1, head := s!"{c} -" }
-    | _ => none
-  | ["tick", ms] => do
-    let n ← ms.toNat?
-    some { base with st := doL st (.tick n), head := "ok -" }
-  | ["fault", flags] =>
-    if st.cfg.eventStore then some { base with st := doL st (.faults (parseFaults flags)), head := "ok -" }
-    else some { base with head := "noop -" }
-  | ["close", ref] => do
-    let sid ← parseRef st.next ref
-    match sid with
-    | some i =>
-      if !st.cfg.stateless && isLive st i then
-        let st2 := settle (doL st (.serverClose i))
-        if isLive st2 i then
-          some { base with st := st2, nasync := d.nasync + 1, head := "pending -", pend := d.pend ++ [⟨s!"c{d.nasync + 1}", .cls i⟩] }
-        else some { base with st := st2, nasync := d.nasync + 1, head := (if closeErrOf st2 i then "err -" else "ok -") }
-      else some { base with head := "noop -" }
-    | none => some { base with head := "noop -" }
+    let r ← parseRef ref
+    let u ← parseUserTok user
+    some (.other r u)
+  | ["tick", ms] => ms.toNat?.map .tick
+  | ["fault", flags] => some (.fault (parseFaults flags))
+  | ["close", ref] => (parseRef ref).map .close
   | _ => none
 
-/-! ## observations of the implementation -/
+/-! ## parser: observations of the implementation -/
 
-structure Obs where
-  status : String := ""
-  hdr : String := "-"
-  done : List String := []
-  map : List String := []
-  srv : List String := []
-  log : List String := []
+def parseName (s : String) : Name :=
+  if s == "e" then .e
+  else match prefixed? "s" s with
+    | some k => .s k
+    | none => match prefixed? "x" s with
+      | some n => .x n
+      | none => .raw s
+
+def parseOwner (s : String) : Owner :=
+  if s == "-" then .unbound
+  else match prefixed? "u" s with
+    | some n => .u n
+    | none => .raw s
+
+def parseWho (s : String) : LogWho :=
+  match parseUserTok s with
+  | some u => .tok u
+  | none => .raw s
+
+def parseSt (s : String) : St :=
+  match s with
+  | "pending" => .pending
+  | "ok" => .ok
+  | "noop" => .noop
+  | "err" => .err
+  | _ => match canonNat? s with
+    | some n => .code n
+    | none => .raw s
+
+def parseTag (s : String) : Tag :=
+  match prefixed? "p" s with
+  | some n => .p n
+  | none => match prefixed? "q" s with
+    | some n => .q n
+    | none => match prefixed? "d" s with
+      | some n => .d n
+      | none => match prefixed? "c" s with
+        | some n => .c n
+        | none => match prefixed? "r" s with
+          | some n => .r n
+          | none => .raw s
+
+def fieldAt (s : String) (n : Nat) : String := ((s.splitOn "/")[n]?).getD ""
+
+def parseMapEnt (ent : String) : MapEnt :=
+  { name := parseName (fieldAt ent 0), badKey := (fieldAt ent 0).endsWith "!key",
+    owner := parseOwner (fieldAt ent 1),
+    refs := (tailStr (fieldAt ent 2) 1).toNat?.getD 0, timer := fieldAt ent 3 == "t1",
+    closing := fieldAt ent 4 == "c1" }
+
+def parseLogEnt (l : String) : LogEnt :=
+  { sess := parseName (fieldAt l 0), who := parseWho (fieldAt l 1), method := .raw (fieldAt l 2) }
+
+def parseDone (c : String) : Tag × Nat :=
+  (parseTag (((c.splitOn "=")[0]?).getD ""), (((c.splitOn "=")[1]?).getD "").toNat?.getD 0)
 
 def parseObs (impl : String) : Obs :=
   (words impl).foldl (fun (o : Obs × Nat) w =>
     let (ob, idx) := o
-    if w.startsWith "done:" then ({ ob with done := splitList (tailStr w 5) }, idx + 1)
-    else if w.startsWith "map:" then ({ ob with map := splitList (tailStr w 4) }, idx + 1)
-    else if w.startsWith "srv:" then ({ ob with srv := splitList (tailStr w 4) }, idx + 1)
-    else if w.startsWith "log:" then ({ ob with log := splitList (tailStr w 4) }, idx + 1)
-    else if idx = 0 then ({ ob with status := w }, 1)
-    else if idx = 1 then ({ ob with hdr := w }, 2)
-    else (ob, idx + 1)) ({}, 0) |>.1
+    if w.startsWith "done:" then ({ ob with done := (splitList (tailStr w 5)).map parseDone }, idx + 1)
+    else if w.startsWith "map:" then ({ ob with map := (splitList (tailStr w 4)).map parseMapEnt }, idx + 1)
+    else if w.startsWith "srv:" then ({ ob with srv := (splitList (tailStr w 4)).map parseName }, idx + 1)
+    else if w.startsWith "log:" then ({ ob with log := (splitList (tailStr w 4)).map parseLogEnt }, idx + 1)
+    else if idx = 0 then ({ ob with status := parseSt w }, 1)
+    else if idx = 1 then ({ ob with hdr := if w == "-" then none else some (parseName w) }, 2)
+    else (ob, idx + 1)) ({ status := .raw "" }, 0) |>.1
 
-def fieldAt (s : String) (n : Nat) : String := ((s.splitOn "/")[n]?).getD ""
+/-! ## renderer -/
 
-/-! ## the property monitor -/
+def Name.render : Name → String
+  | .s k => s!"s{k}"
+  | .e => "e"
+  | .x n => s!"x{n}"
+  | .raw str => str
 
-def ownerOfUser (u : String) : String := if u == "anon" || u == "ue" then "-" else u
+def UserTok.render : UserTok → String
+  | .anon => "anon"
+  | .ue => "ue"
+  | .u n => s!"u{n}"
 
-def monFind (m : List MSess) (n : String) : Option MSess := m.find? (·.name == n)
+def LogWho.render : LogWho → String
+  | .tok u => u.render
+  | .raw s => s
 
-def monUpd (m : List MSess) (n : String) (f : MSess → MSess) : List MSess :=
-  m.map fun e => if e.name == n then f e else e
+def Owner.render : Owner → String
+  | .unbound => "-"
+  | .u n => s!"u{n}"
+  | .raw s => s
 
-def rejected (st : String) : Bool := st == "400" || st == "403" || st == "404" || st == "405"
+def St.render : St → String
+  | .code n => toString n
+  | .pending => "pending"
+  | .ok => "ok"
+  | .noop => "noop"
+  | .err => "err"
+  | .raw s => s
 
-structure MonRes where
-  mon : List MSess
-  mnow : Nat
-  mpend : List (String × String)
-  zombies : List String
-  mrun : List (Nat × String)
-  mfaults : String := "-"
-  viol : Option String := none
+def Tag.render : Tag → String
+  | .p n => s!"p{n}"
+  | .q n => s!"q{n}"
+  | .d n => s!"d{n}"
+  | .c n => s!"c{n}"
+  | .r n => s!"r{n}"
+  | .raw s => s
+
+def Method.render : Method → String
+  | .initialize => "initialize"
+  | .ping => "ping"
+  | .initialized => "notifications/initialized"
+  | .toolsCall => "tools/call"
+  | .raw s => s
+
+def MapEnt.render (e : MapEnt) : String :=
+  s!"{e.name.render}{if e.badKey then "!key" else ""}/{e.owner.render}/r{e.refs}/t{b2n e.timer}/c{b2n e.closing}"
+
+def LogEnt.render (l : LogEnt) : String := s!"{l.sess.render}/{l.who.render}/{l.method.render}"
+
+/-- The canonical observation string (completions and log sorted, as the harness prints them). -/
+def Obs.render (o : Obs) : String :=
+  let hdr := match o.hdr with | some n => n.render | none => "-"
+  let head := s!"{o.status.render} {hdr}{if o.hang then " hang" else ""}"
+  s!"{head} done:{joinOr (sortStrs (o.done.map fun c => s!"{c.1.render}={c.2}"))} map:{joinOr (o.map.map MapEnt.render)} srv:{joinOr (o.srv.map Name.render)} log:{joinOr (sortStrs (o.log.map LogEnt.render))}"
+
+def Verb.text : Verb → String
+  | .post => "post"
+  | .get => "get"
+  | .delete => "delete"
+  | .other => "other"
+
+/-! ## the clause texts -/
 
 /-- A session that the server closed between `Connect` and its publication sits in the handler's table.
 Classified as the (repaired) defect F20 only when the source lacks F20's publication check; with the
 check in place it is a plain violation of the clause (whatever made the closed session stay). -/
-def f20 : String :=
+def f20Text : String :=
   if Generated.Sessions.publishChecksClosed then
     "C11:dead_after_removal: session closed by the server during its creating POST is kept in the handler's table"
   else "C11: F20 session closed by the server during its creating POST is kept in the handler's table"
 
-def firstViol (a b : Option String) : Option String := match a with | some x => some x | none => b
+def AnsClause.text : AnsClause → String
+  | .statelessNotPost v st => s!"C11:stateless_no_ids_405: {v.text} on a stateless endpoint answered {st.render}"
+  | .statelessHonoured st => s!"C11:stateless_no_ids_405: stateless endpoint honoured a session id ({st.render})"
+  | .statelessPost st => s!"C11:stateless_no_ids_405: stateless POST answered {st.render}"
+  | .otherMethod st => s!"C11:other method answered {st.render}"
+  | .createAnswered st => s!"C11:id_minted_only_on_creating_post: POST without a session id answered {st.render}"
+  | .missingId v st => s!"C11:{v.text} without a session id answered {st.render}"
+  | .unknownHonoured v st => s!"C11:id_addresses_one_session: unknown session id honoured ({v.text} answered {st.render})"
+  | .deadAnswered v st => s!"C11:dead_after_removal: {v.text} to a terminated session answered {st.render}"
+  | .ownerRejected => "C11:owner_binding: owner rejected"
+  | .foreignAnswered v st => s!"C11:owner_binding: {v.text} by another user answered {st.render}"
+  | .goneDuringPost => "C11:timer_never_fires_during_post: session gone while a POST is in progress"
+  | .liveNotHonoured v => s!"C11:dead_after_removal: live session not honoured ({v.text} answered 404)"
+  | .liveAnswered v st => s!"C11:{v.text} to a live session answered {st.render}"
 
-/-- The C11 clauses evaluated on one observation of the implementation. -/
-def monitorOp (cfg : Cfg) (d : DState) (toks : List String) (racy : Bool) (o : Obs) : MonRes :=
-  let now := match toks with
-    | ["tick", ms] => d.mnow + ms.toNat?.getD 0
-    | _ => d.mnow
-  -- idle sessions die when their timeout has elapsed (observed at quiescence after the tick)
-  let mon0 := d.mon.map fun e =>
-    if e.status == 0 && e.posts == 0 && cfg.timeout > 0 && e.idleSince + cfg.timeout ≤ now then
-      -- with a handler still running the close cannot complete yet: the session is going away
-      { e with status := if e.running > 0 then 1 else 2 }
-    else e
-  let isReq := match toks with
-    | "post" :: _ | "get" :: _ | "delete" :: _ | "other" :: _ => true
-    | _ => false
-  let ref := (toks[1]?).getD "-"
-  let user := (toks[2]?).getD "anon"
-  let kind := (toks[3]?).getD ""
-  let op := (toks[0]?).getD ""
-  let st := o.status
-  let target := monFind mon0 ref
-  let accepted2xx := st == "200" || st == "202" || st == "204" || st == "pending"
-  -- the environment's script: error statuses that the transport may answer with *after* the session
-  -- layer has let the request through, because the configured event store fails right now
-  let fl := if cfg.eventStore then d.mfaults else "-"
-  let openRefusal := op == "post" && kind != "notif" && fl.contains 'O' && st == "500"
-  let connRefusal := op == "post" && fl.contains 'o' && st == "500"
-  let replayRefusal := op == "get" && fl.contains 'r' && st == "400"
-  -- 1. expected answer of a request
-  let v1 : Option String :=
-    if !isReq then none
-    else if cfg.stateless then
-      if op != "post" then
-        (if st == "405" then none else some s!"C11:stateless_no_ids_405: {op} on a stateless endpoint answered {st}")
-      else if st == "403" || st == "404" then some s!"C11:stateless_no_ids_405: stateless endpoint honoured a session id ({st})"
-      else if !(accepted2xx || openRefusal || connRefusal) then some s!"C11:stateless_no_ids_405: stateless POST answered {st}"
-      else none
-    else if op == "other" then
-      (if st == "405" then none else some s!"C11:other method answered {st}")
-    else if ref == "-" then
-      if op == "post" then (if accepted2xx || openRefusal || connRefusal then none else some s!"C11:id_minted_only_on_creating_post: POST without a session id answered {st}")
-      else (if st == "400" then none else some s!"C11:{op} without a session id answered {st}")
-    else match target with
-      | none => if st == "404" then none else some s!"C11:id_addresses_one_session: unknown session id honoured ({op} answered {st})"
-      | some e =>
-        let entitled := e.owner == "-" || e.owner == user
-        if e.status == 2 then
-          (if st == "404" then none else some s!"C11:dead_after_removal: {op} to a terminated session answered {st}")
-        else if e.status == 1 then
-          (if entitled then (if st == "403" then some "C11:owner_binding: owner rejected" else none)
-           else (if st == "403" || st == "404" then none else some s!"C11:owner_binding: {op} by another user answered {st}"))
-        else if !entitled then
-          (if st == "403" then none else some s!"C11:owner_binding: {op} by another user answered {st}")
-        else if st == "403" then some "C11:owner_binding: owner rejected"
-        else if st == "404" then
-          (if e.posts > 0 then some "C11:timer_never_fires_during_post: session gone while a POST is in progress"
-           else some s!"C11:dead_after_removal: live session not honoured ({op} answered 404)")
-        else if !(accepted2xx || openRefusal || replayRefusal) then some s!"C11:{op} to a live session answered {st}"
-        else none
-  -- 2. a rejected request reaches no handler; an accepted one reaches only its own session, as its own user
-  let v2 : Option String :=
-    if isReq && rejected st && !o.log.isEmpty then some "C11:owner_binding: handler invoked for a rejected request"
-    else if isReq then
-      o.log.foldl (fun acc l =>
-        firstViol acc (
-          if fieldAt l 1 != user then some "C11:owner_binding: handler saw another user"
-          else if cfg.stateless then (if fieldAt l 0 == "e" then none else some "C11:stateless_no_ids_405: handler ran on a session with an id")
-          else if ref != "-" && fieldAt l 0 != ref then some "C11:id_addresses_one_session: message routed to another session"
-          else none)) none
-    else if !o.log.isEmpty then some "C11:handler invoked without a request" else none
-  -- 3. minting
-  let v3 : Option String :=
-    if o.hdr == "-" then none
-    else if cfg.stateless then some "C11:stateless_no_ids_405: stateless endpoint issued a session id"
-    else if !(op == "post" && (kind == "init" || kind == "badinit") && accepted2xx) then
-      some "C11:id_minted_only_on_creating_post: Mcp-Session-Id on a response that created no session"
-    else if ref == "-" then
-      (if (monFind mon0 o.hdr).isSome then some "C11:id_addresses_one_session: minted id already names a session" else none)
-    else if o.hdr == ref then none
-    else some "C11:id_minted_only_on_creating_post: response names a different session"
-  -- 4. bookkeeping from the answer
-  let entitledLive := match target with
-    | some e => e.status == 0 && (e.owner == "-" || e.owner == user)
-    | none => false
-  let tagOf : String := match op with
-    | "post" => if kind == "slow" then s!"p{d.nslow + 1}" else ""
-    | "delete" => s!"d{d.nasync + 1}"
-    | "close" => s!"c{d.nasync + 1}"
-    | _ => ""
-  let (mon1, mpend1) : List MSess × List (String × String) :=
-    if cfg.stateless then (mon0, d.mpend)
-    else match op with
-      | "post" =>
-        if ref != "-" && entitledLive && (accepted2xx || openRefusal) then
-          if st == "pending" then (monUpd mon0 ref (fun e => { e with posts := e.posts + 1 }), d.mpend ++ [(tagOf, ref)])
-          else (monUpd mon0 ref (fun e => if e.posts == 0 then { e with idleSince := now } else e), d.mpend)
-        else (mon0, d.mpend)
-      | "delete" =>
-        if entitledLive && st == "204" then (monUpd mon0 ref (fun e => { e with status := 2 }), d.mpend)
-        else if entitledLive && st == "pending" then (monUpd mon0 ref (fun e => { e with status := 1 }), d.mpend ++ [(tagOf, ref)])
-        else (mon0, d.mpend)
-      | "close" =>
-        -- (`err`: Close reported the error of closing the connection; the session has ended all the same)
-        if st == "ok" || st == "err" then (monUpd mon0 ref (fun e => { e with status := 2 }), d.mpend)
-        else if st == "pending" then (monUpd mon0 ref (fun e => if e.status == 0 then { e with status := 1 } else e), d.mpend ++ [(tagOf, ref)])
-        else (mon0, d.mpend)
-      | _ => (mon0, d.mpend)
-  -- abandoned POSTs: the handler keeps running; released handlers stop running
-  let slotArg := ((toks[1]?).getD "").toNat?.getD 0
-  let (mon1, mrun1) : List MSess × List (Nat × String) :=
-    match op with
-    | "abandon" =>
-      if st == "ok" then
-        match mpend1.find? (·.1 == s!"p{slotArg}") with
-        | some (_, nm) => (monUpd mon1 nm (fun e => { e with running := e.running + 1 }), d.mrun ++ [(slotArg, nm)])
-        | none => (mon1, d.mrun)
-      else (mon1, d.mrun)
-    | "release" =>
-      match d.mrun.find? (·.1 == slotArg) with
-      | some (_, nm) => (monUpd mon1 nm (fun e => { e with running := e.running - 1 }), d.mrun.filter (·.1 != slotArg))
-      | none => (mon1, d.mrun)
-    | _ => (mon1, d.mrun)
-  -- async completions
-  let (mon2, mpend2) := o.done.foldl (fun (acc : List MSess × List (String × String)) c =>
-    let tag := ((c.splitOn "=")[0]?).getD ""
-    match acc.2.find? (·.1 == tag) with
-    | none => acc
-    | some (_, nm) =>
-      let rest := acc.2.filter (·.1 != tag)
-      if tag.startsWith "p" then
-        (monUpd acc.1 nm (fun e => if e.posts ≤ 1 then { e with posts := 0, idleSince := now } else { e with posts := e.posts - 1 }), rest)
-      else (monUpd acc.1 nm (fun e => { e with status := 2 }), rest)) (mon1, mpend1)
-  -- 5. the tables: h.sessions and Server.Sessions() against the abstract table
-  let names := o.map.map (fieldAt · 0)
-  let creatingInit := op == "post" && ref == "-" && kind == "init" && !cfg.stateless
-  let (mon3, v5a) := o.map.foldl (fun (acc : List MSess × Option String) ent =>
-    let nm := fieldAt ent 0
-    let ow := fieldAt ent 1
-    match monFind acc.1 nm with
-    | some e =>
-      if e.owner != ow then (acc.1, firstViol acc.2 (some "C11:id_addresses_one_session: owner of a session changed"))
-      else if e.status == 2 then (acc.1, firstViol acc.2 (some s!"C11:dead_after_removal: terminated session {nm} still in the handler's table"))
-      else if e.status == 0 && fieldAt ent 4 == "c1" then
-        (acc.1, firstViol acc.2 (some (if e.posts > 0
-          then s!"C11:timer_never_fires_during_post: session {nm} is being closed while a POST is in progress"
-          else s!"C11:dead_after_removal: session {nm} is being closed without DELETE, timeout or server-side close")))
-      else (acc.1, acc.2)
-    | none =>
-      let e : MSess := { name := nm, owner := ow, status := 0, posts := 0, idleSince := now }
-      let v := if racy then some f20
-        else if op == "post" && ref == "-" && !cfg.stateless then
-          (if kind != "init" then some "C11:dead_after_removal: session kept after a failed initialize"
-           else if !accepted2xx then some s!"C11:dead_after_removal: session kept although its creating POST was refused ({st})"
-           else if ow != ownerOfUser user then some "C11:owner_binding: session bound to a user other than its creator"
-           else if o.hdr != nm then some "C11:id_minted_only_on_creating_post: created session is not the one named in the response"
-           else none)
-        else if cfg.stateless then some "C11:stateless_no_ids_405: stateless endpoint keeps a session"
-        else some "C11:id_minted_only_on_creating_post: session appeared without a creating POST"
-      (acc.1 ++ [e], firstViol acc.2 v)) (mon2, none)
-  let v5b : Option String :=
-    if names.eraseDups.length != names.length then some "C11:id_addresses_one_session: duplicate session id in the handler's table"
-    else if o.map.any (fun ent => (fieldAt ent 0).endsWith "!key") then some "C11:id_addresses_one_session: table key differs from the session's id"
-    else none
-  -- live sessions must still be there; dying ones may go
-  let v5c : Option String := mon3.foldl (fun acc e =>
-    if e.status == 0 && !names.contains e.name then
-      firstViol acc (some (if e.posts > 0 then s!"C11:timer_never_fires_during_post: session {e.name} closed while a POST is in progress"
-                           else s!"C11:dead_after_removal: live session {e.name} dropped without DELETE, timeout or close"))
-    else acc) none
-  let mon4 := mon3.map fun e => if e.status == 1 && !names.contains e.name then { e with status := 2 } else e
-  -- a creating initialize that answered with an id but left no session: failed initialize, id is dead
-  let mon5 := if o.hdr != "-" && (monFind mon4 o.hdr).isNone then
-      mon4 ++ [{ name := o.hdr, owner := ownerOfUser user, status := 2, posts := 0, idleSince := now }] else mon4
-  let v5d : Option String :=
-    if cfg.stateless then
-      (if o.srv.any (· != "e") then some "C11:stateless_no_ids_405: server session with an id on a stateless endpoint" else none)
-    else
-      firstViol
-        (o.srv.foldl (fun acc n => if names.contains n then acc else
-          firstViol acc (some s!"C11:dead_after_removal: server-side session {n} not forgotten")) none)
-        (names.foldl (fun acc n => if o.srv.contains n then acc else
-          firstViol acc (some s!"C11:dead_after_removal: handler table keeps {n} which the server has dropped")) none)
-  let v5e : Option String :=
-    if creatingInit && accepted2xx && o.hdr == "-" then some "C11:id_minted_only_on_creating_post: creating initialize answered without a session id" else none
-  -- F20: once a session that the server closed during its creation sits in the handler's table, every
-  -- clause it breaks afterwards is the same defect
-  let zombies := d.zombies ++ (if racy then names.filter (fun n => (monFind mon2 n).isNone) else [])
-  let viol := firstViol v1 (firstViol v2 (firstViol v3 (firstViol v5a (firstViol v5b (firstViol v5c (firstViol v5d v5e))))))
-  let viol := if names.any zombies.contains then
-      viol.map (fun c => if c.startsWith f20 then c else s!"{f20}; then {c}")
-    else viol
-  let mfaults := match toks with
-    | ["fault", f] => if st == "ok" then f else d.mfaults
-    | _ => d.mfaults
-  { mon := mon5, mnow := now, mpend := mpend2, zombies := zombies, mrun := mrun1, mfaults := mfaults, viol := viol }
+def LogClause.text : LogClause → String
+  | .rejectedReached => "C11:owner_binding: handler invoked for a rejected request"
+  | .otherUser => "C11:owner_binding: handler saw another user"
+  | .statelessWithId => "C11:stateless_no_ids_405: handler ran on a session with an id"
+  | .misrouted => "C11:id_addresses_one_session: message routed to another session"
+  | .noRequest => "C11:handler invoked without a request"
+
+def MintClause.text : MintClause → String
+  | .stateless => "C11:stateless_no_ids_405: stateless endpoint issued a session id"
+  | .notCreating => "C11:id_minted_only_on_creating_post: Mcp-Session-Id on a response that created no session"
+  | .reused => "C11:id_addresses_one_session: minted id already names a session"
+  | .different => "C11:id_minted_only_on_creating_post: response names a different session"
+
+def TblClause.text : TblClause → String
+  | .ownerChanged => "C11:id_addresses_one_session: owner of a session changed"
+  | .deadInTable n => s!"C11:dead_after_removal: terminated session {n.render} still in the handler's table"
+  | .closingDuringPost n => s!"C11:timer_never_fires_during_post: session {n.render} is being closed while a POST is in progress"
+  | .closingNoCause n => s!"C11:dead_after_removal: session {n.render} is being closed without DELETE, timeout or server-side close"
+  | .f20 => f20Text
+  | .keptAfterFailedInit => "C11:dead_after_removal: session kept after a failed initialize"
+  | .keptAfterRefusal st => s!"C11:dead_after_removal: session kept although its creating POST was refused ({st.render})"
+  | .boundToOther => "C11:owner_binding: session bound to a user other than its creator"
+  | .notTheNamed => "C11:id_minted_only_on_creating_post: created session is not the one named in the response"
+  | .statelessKeeps => "C11:stateless_no_ids_405: stateless endpoint keeps a session"
+  | .appeared => "C11:id_minted_only_on_creating_post: session appeared without a creating POST"
+
+def KeyClause.text : KeyClause → String
+  | .duplicate => "C11:id_addresses_one_session: duplicate session id in the handler's table"
+  | .badKey => "C11:id_addresses_one_session: table key differs from the session's id"
+
+def GoneClause.text : GoneClause → String
+  | .duringPost n => s!"C11:timer_never_fires_during_post: session {n.render} closed while a POST is in progress"
+  | .dropped n => s!"C11:dead_after_removal: live session {n.render} dropped without DELETE, timeout or close"
+
+def SrvClause.text : SrvClause → String
+  | .statelessId => "C11:stateless_no_ids_405: server session with an id on a stateless endpoint"
+  | .notForgotten n => s!"C11:dead_after_removal: server-side session {n.render} not forgotten"
+  | .tableKeeps n => s!"C11:dead_after_removal: handler table keeps {n.render} which the server has dropped"
+
+def Clause.text : Clause → String
+  | .ans c => c.text
+  | .log c => c.text
+  | .mint c => c.text
+  | .tbl c => c.text
+  | .key c => c.text
+  | .gone c => c.text
+  | .srv c => c.text
+  | .noId => "C11:id_minted_only_on_creating_post: creating initialize answered without a session id"
+  | .zombieThen c => s!"{f20Text}; then {c.text}"
+
+def EndClause.text : EndClause → String
+  | .left => "C11:dead_after_removal: requests or sessions left after every session was closed"
+  | .zombieLeft => s!"{f20Text}; then C11:dead_after_removal: sessions left after every session was closed"
+
+/-! ## the end-of-case record -/
+
+def EndObs.render (o : EndObs) : String := s!"end stuck={o.stuck} map={o.map} srv={o.srv}"
+
+def parseEnd (impl : String) : Option EndObs :=
+  match words impl with
+  | ["end", a, b, c] => do
+    let x ← prefixed? "stuck=" a
+    let y ← prefixed? "map=" b
+    let z ← prefixed? "srv=" c
+    let o : EndObs := { stuck := x, map := y, srv := z }
+    if o.render == impl then some o else none
+  | _ => none
 
 /-! ## the engine -/
+
+structure DState where
+  r : RState := .init { stateless := false, timeout := 100, publishChecks := Generated.Sessions.publishChecksClosed }
+  mon : Mon := {}
 
 def engine : Engine DState where
   init := {}
@@ -592,32 +345,20 @@ def engine : Engine DState where
       let cfg : Cfg := { stateless := mode == "stateless", timeout := ms.toNat?.getD 0,
                          publishChecks := Generated.Sessions.publishChecksClosed,
                          eventStore := rest == ["es"] }
-      ({ st := init cfg }, { model := "ok" })
+      ({ r := .init cfg }, { model := "ok" })
     | ["reset"] => ({}, { model := "ok" })
     | ["end"] =>
-      let want := "end stuck=0 map=0 srv=0"
       -- (the unrepaired publication of F20 leaves its dead sessions behind: the model follows it)
-      let left := (d.st.tbl.filter (fun e => e.inMap && e.removed)).length
-      (d, { model := s!"end stuck=0 map={left} srv=0",
-            violated := if impl == want then none
-              else if !d.zombies.isEmpty then some s!"{f20}; then C11:dead_after_removal: sessions left after every session was closed"
-              else some "C11:dead_after_removal: requests or sessions left after every session was closed" })
+      let want : EndObs := { stuck := 0, map := endLeft d.r, srv := 0 }
+      (d, { model := want.render, violated := (monEnd d.mon (parseEnd impl)).map EndClause.text })
     | _ =>
-      let o := parseObs impl
-      let (mtoks, racy) := match toks with
-        | ["postx", u, k] => (["post", "-", u, k], true)
-        | _ => (toks, false)
-      let mr := monitorOp d.st.cfg d mtoks racy o
-      match modelOp d toks with
-      | none => ({ d with mon := mr.mon, mnow := mr.mnow, mpend := mr.mpend, zombies := mr.zombies, mrun := mr.mrun, mfaults := mr.mfaults },
-                 { model := "bad-op", violated := mr.viol })
-      | some m =>
-        let st := settle m.st
-        let (doneC, pend, st) := completions st m.pend
-        let model := s!"{m.head} done:{joinOr (sortStrs (m.done ++ doneC))} map:{showMap st} srv:{showSrv st} log:{joinOr (sortStrs m.log)}"
-        ({ st := st, nslow := m.nslow, nasync := m.nasync, released := m.released, pend := pend,
-           mon := mr.mon, mnow := mr.mnow, mpend := mr.mpend, zombies := mr.zombies, mrun := mr.mrun, mfaults := mr.mfaults },
-         { model := model, violated := mr.viol })
+      match parseOp toks with
+      | none => (d, { model := "bad-op" })
+      | some op =>
+        let mr := monStep d.r.st.cfg d.mon op (parseObs impl)
+        match replayOp d.r op with
+        | none => ({ d with mon := mr.mon }, { model := "bad-op", violated := mr.viol.map Clause.text })
+        | some (r, mo) => ({ r := r, mon := mr.mon }, { model := mo.render, violated := mr.viol.map Clause.text })
 
 end Sessions
 
